@@ -37,7 +37,10 @@ func c18Cases(quick bool) []EnumCase {
 	var out []EnumCase
 	for _, text := range []bool{false, true} {
 		for _, init := range []bool{false, true} {
-			for wills := 0; wills <= 3; wills++ {
+			for wills := 0; wills <= 7; wills++ {
+				if wills > 3 && !text {
+					continue // binary wills are three distinct commands; text connections register the same will n times
+				}
 				for _, cause := range []string{"client-close", "protocol-error", "client-kill"} {
 					for _, at := range []string{"before-grant", "at-timeout-tick", "after-timeout"} {
 						for _, rc := range []string{"no", "before-late-reply", "after-late-reply", "before-close"} {
@@ -203,8 +206,7 @@ func evalC18(c *Ctx, cs EnumCase) EnumResult {
 		vrt.Quiesce()
 		v.Pump()
 		if k.Cause != "client-close" && !v.Closed {
-			engErr = "the " + k.Cause + " did not end the victim connection"
-			return
+			add("connection-never-closed", "the "+k.Cause+" did not make the server close the victim connection (its close handler has not finished)")
 		}
 		afterClose := vrt.Elapsed()
 		// wills: each exactly once, in registration order, only now
